@@ -61,7 +61,7 @@ func (t *c20Temp) UnmarshalText(b []byte) error {
 func (t c20Temp) MarshalText() ([]byte, error) { return []byte(strconv.Itoa(t.Deg) + "C"), nil }
 
 type c20Sub struct {
-	Level    int      `dials:"level" vleaf:"sub.level"`
+	Ļevel    int      `dials:"level" vleaf:"sub.level"`
 	Ratio    float64  `vleaf:"sub.ratio"`
 	Labels   []string `dials:"labels" vleaf:"sub.labels"`
 	HostName string   `dials:"host_name" dialsalias:"old_host_name" vleaf:"sub.host"`
@@ -74,13 +74,13 @@ type c20In struct {
 
 type c20Deep struct {
 	In   c20In `dials:"in"`
-	Flag bool  `dials:"flag" vleaf:"deep.flag"`
+	Ƒlag bool  `dials:"flag" vleaf:"deep.flag"`
 }
 
 type c20Cfg struct {
 	Name    string              `dials:"name" vleaf:"name"`
 	Port    int                 `dials:"port" dialsalias:"listen_port" vleaf:"port"`
-	Debug   bool                `dials:"debug" vleaf:"debug"`
+	Ďebug   bool                `dials:"debug" vleaf:"debug"`
 	MaxWait time.Duration       `dials:"max_wait" vleaf:"maxwait"`
 	Tags    map[string]struct{} `dials:"tags" vleaf:"tags"`
 	Temp    c20Temp             `dials:"temp" vleaf:"temp"`
@@ -101,7 +101,7 @@ func (c *c20Cfg) Verify() error {
 
 func c20Defaults() *c20Cfg {
 	return &c20Cfg{Name: "default", Port: 80, MaxWait: time.Second, Tags: map[string]struct{}{"dflt": {}},
-		Temp: c20Temp{Deg: 20}, Weights: []int{1}, Sub: c20Sub{Level: 1, Ratio: 0.5, Labels: []string{"l0"}, HostName: "localhost"},
+		Temp: c20Temp{Deg: 20}, Weights: []int{1}, Sub: c20Sub{Ļevel: 1, Ratio: 0.5, Labels: []string{"l0"}, HostName: "localhost"},
 		Deep: c20Deep{In: c20In{Depth: 1, Temp: c20Temp{Deg: -1}}}}
 }
 
